@@ -10,7 +10,10 @@ import (
 	"errors"
 	"fmt"
 	"math/big"
+	"reflect"
 	"strings"
+
+	"github.com/Oneledger/protocol/action"
 )
 
 // chooser abstracts the source of choices (rapid draws or fuzz bytes).
@@ -348,7 +351,62 @@ var wsChoices = []string{" ", "\n", "\t", "\r\n", "  ", " \n\t"}
 var opNames = []string{
 	"identity", "ws-leading", "ws-trailing", "ws-interior", "key-reorder", "dup-key-junk-first", "dup-key-same",
 	"extra-field-top", "extra-field-fee", "extra-field-signature", "extra-field-first", "key-case", "key-escape", "string-escape",
-	"base64-crlf", "base64-trailing-bits", "numeric-value", "number-form", "trailing-garbage",
+	"base64-crlf", "base64-trailing-bits", "numeric-value", "number-form", "trailing-garbage", "declared-absent-member",
+}
+
+// declaredAbsent lists, as `"name":value` texts, the members the repository's own envelope type declares (read by
+// reflection from action.SignedTx, so a member added to that type is found without being guessed) that the given
+// top-level object does not carry — an optional member left out by the canonical writer. On the pinned type every
+// declared member is always written, so the list is empty and the operator degenerates to the identity.
+func declaredAbsent(tree *node) []string {
+	have := map[string]bool{}
+	if tree != nil && tree.kind == 'o' {
+		for _, k := range tree.keys {
+			have[strings.ToLower(k)] = true
+		}
+	}
+	var out []string
+	var walk func(t reflect.Type)
+	walk = func(t reflect.Type) {
+		for i := 0; i < t.NumField(); i++ {
+			f := t.Field(i)
+			if f.Anonymous && f.Type.Kind() == reflect.Struct {
+				walk(f.Type)
+				continue
+			}
+			if f.PkgPath != "" {
+				continue
+			}
+			name := f.Name
+			if tag := f.Tag.Get("json"); tag != "" {
+				if n := strings.Split(tag, ",")[0]; n == "-" {
+					continue
+				} else if n != "" {
+					name = n
+				}
+			}
+			if have[strings.ToLower(name)] {
+				continue
+			}
+			v := `"x"`
+			switch f.Type.Kind() {
+			case reflect.Bool:
+				v = "true"
+			case reflect.Int, reflect.Int8, reflect.Int16, reflect.Int32, reflect.Int64, reflect.Uint, reflect.Uint8, reflect.Uint16, reflect.Uint32, reflect.Uint64, reflect.Float32, reflect.Float64:
+				v = "1"
+			case reflect.Slice:
+				v = `"eA=="`
+				if f.Type.Elem().Kind() != reflect.Uint8 {
+					v = "[]"
+				}
+			case reflect.Map, reflect.Struct, reflect.Ptr, reflect.Interface:
+				v = "{}"
+			}
+			out = append(out, quote(name)+":"+v)
+		}
+	}
+	walk(reflect.TypeOf(action.SignedTx{}))
+	return out
 }
 
 // reencode applies one operator.
@@ -373,6 +431,10 @@ func reencode(tree *node, op string, c chooser) []byte {
 		o.DupSame = map[string]bool{p: true}
 	case "extra-field-top":
 		o.Extra = map[string]string{"": []string{`"extra":1`, `"nonce":7`, `"x":{"type":2,"memo":"no"}`, `"":null`}[c.Intn(4, "extra")]}
+	case "declared-absent-member":
+		if cands := declaredAbsent(tree); len(cands) > 0 {
+			o.Extra = map[string]string{"": cands[c.Intn(len(cands), "declared")]}
+		}
 	case "extra-field-fee":
 		o.Extra = map[string]string{[]string{"fee", "fee.price"}[c.Intn(2, "where")]: `"tip":"5"`}
 	case "extra-field-signature":
